@@ -25,7 +25,7 @@ class AnchorMissing(AnalysisError):
     pass
 
 
-@dataclass
+@dataclass(eq=False)
 class FuncInfo:
     qualname: str  # EasyFEA.FEM._gauss.Gauss._Triangle
     module: "ModuleInfo"
@@ -65,7 +65,7 @@ class FuncInfo:
         return [x.arg for x in a.posonlyargs + a.args + a.kwonlyargs]
 
 
-@dataclass
+@dataclass(eq=False)
 class ClassInfo:
     qualname: str
     name: str
@@ -92,7 +92,7 @@ class ClassInfo:
         return any(b.split(".")[-1] in ("Enum", "IntEnum", "StrEnum") for b in self.base_exprs)
 
 
-@dataclass
+@dataclass(eq=False)
 class ModuleInfo:
     name: str  # EasyFEA.FEM._gauss
     path: str
